@@ -3,8 +3,8 @@
   (Gen/C07.lean is re-translated from channel_algorithm.hpp on every run of the check).
 
   Only property theorems live here (named C07_*); helper lemmas are `private`.
-  The float32 channel path (`a*b`, `1-x`) is not covered by these theorems: partial (float),
-  decided by the Spec evaluated on the real code's output; see DESIGN.md.
+  The float32 channel path (`a*b`, `1-x`) is not covered by THESE theorems; it is proved relative to
+  the abstract rounding structure `FloatSpec` in Props/C07Float.lean (C07_float_*), partial (float).
 -/
 import GilVerif.Gen.C07
 
